@@ -20,7 +20,15 @@ def name_n(n):
 
 
 def case_term(row):
+    """Gallina literal of one recorded history.  Digests are interned per history (equal digest
+    strings <-> equal small numbers), which keeps the literals short; equality is all the kernel
+    functions use."""
     scn = row["scn"]
+    ids = {}
+
+    def gd(d):
+        return gN(ids.setdefault(d, len(ids) + 1))
+
     flags = gpair(gbool(scn["recovery"]), gbool(scn["dir"] == "s2c"), gbool(CODE_STRIPS))
     nrows = [gpair(gN(i), gbool(row["trailing"][i]), gbool(True)) for i in scn["names"]]
     if row.get("twice", -1) in scn["names"]:
@@ -29,12 +37,14 @@ def case_term(row):
     names = glist(nrows)
     ems = []
     for e in row["emitted"]:
-        ems.append(gpair(gpair(conn_n(e["c"]), name_n(e["n"]), gN(int(e["d"]))), gbool(e["ok"])))
+        ems.append(gpair(gpair(conn_n(e["c"]), name_n(e["n"]), gd(e["d"])), gbool(e["ok"])))
         if e["n"] == row.get("twice", -1):   # second registration of the same name: one more expected hand-over
-            ems.append(gpair(gpair(conn_n(e["c"]), gN(100 + e["n"]), gN(int(e["d"]))), gbool(e["ok"])))
+            ems.append(gpair(gpair(conn_n(e["c"]), gN(100 + e["n"]), gd(e["d"])), gbool(e["ok"])))
     em = glist(ems)
-    de = glist(gpair(conn_n(d["c"]), name_n(d["n"]), gN(int(d["d"]))) for d in row["delivered"])
-    return gpair(flags, names, em, de)
+    de = glist(gpair(conn_n(d["c"]), name_n(d["n"]), gd(d["d"])) for d in row["delivered"])
+    probe = gpair(gN(row.get("probe_set", 0)), gN(row.get("probe_zero", 0)))
+    # the type annotation makes elaboration of the long literal ~3x faster
+    return "(%s : ccase)" % gpair(flags, names, em, de, probe)
 
 
 def size_bucket(e):
